@@ -10,6 +10,7 @@ import (
 	"fmt"
 	"math/rand/v2"
 	"syscall"
+	"time"
 
 	"verif/drv"
 	"verif/ref"
@@ -61,6 +62,20 @@ type DB struct {
 
 	// Split controls delivery of journal/WAL writes: "whole" or "split4k".
 	Split string
+
+	// BusyRetries is the number of times a refused lock is retried (SQLite's
+	// busy handler); 0 = fail at once.
+	BusyRetries int
+}
+
+// lock takes a lock, retrying on EAGAIN like SQLite's busy handler.
+func (d *DB) lock(f *drv.File, owner, start, end uint64, excl bool) error {
+	err := f.Lock(owner, start, end, excl)
+	for i := 0; err == drv.ErrBusy && i < d.BusyRetries; i++ {
+		time.Sleep(200 * time.Microsecond)
+		err = f.Lock(owner, start, end, excl)
+	}
+	return err
 }
 
 func NewDB(n *drv.Node, name string, pageSize uint32, rng *rand.Rand) *DB {
@@ -146,13 +161,13 @@ func (c *Conn) SharedLock() error {
 	if err := c.D.step("lock PENDING shared"); err != nil {
 		return err
 	}
-	if err := c.dbf.Lock(c.Owner, PendingByte, PendingByte, false); err != nil {
+	if err := c.D.lock(c.dbf, c.Owner, PendingByte, PendingByte, false); err != nil {
 		return err
 	}
 	if err := c.D.step("lock SHARED shared"); err != nil {
 		return err
 	}
-	if err := c.dbf.Lock(c.Owner, SharedFirst, SharedFirst+SharedSize-1, false); err != nil {
+	if err := c.D.lock(c.dbf, c.Owner, SharedFirst, SharedFirst+SharedSize-1, false); err != nil {
 		_ = c.dbf.Unlock(c.Owner, PendingByte, PendingByte)
 		return err
 	}
@@ -166,20 +181,20 @@ func (c *Conn) ReservedLock() error {
 	if err := c.D.step("lock RESERVED excl"); err != nil {
 		return err
 	}
-	return c.dbf.Lock(c.Owner, ReservedByte, ReservedByte, true)
+	return c.D.lock(c.dbf, c.Owner, ReservedByte, ReservedByte, true)
 }
 
 func (c *Conn) ExclusiveLock() error {
 	if err := c.D.step("lock PENDING excl"); err != nil {
 		return err
 	}
-	if err := c.dbf.Lock(c.Owner, PendingByte, PendingByte, true); err != nil {
+	if err := c.D.lock(c.dbf, c.Owner, PendingByte, PendingByte, true); err != nil {
 		return err
 	}
 	if err := c.D.step("lock SHARED excl"); err != nil {
 		return err
 	}
-	return c.dbf.Lock(c.Owner, SharedFirst, SharedFirst+SharedSize-1, true)
+	return c.D.lock(c.dbf, c.Owner, SharedFirst, SharedFirst+SharedSize-1, true)
 }
 
 // UnlockAll performs SQLite's downgrade-to-SHARED then NO_LOCK sequence.
@@ -187,7 +202,7 @@ func (c *Conn) UnlockAll() error {
 	if err := c.D.step("unlock: SHARED→shared"); err != nil {
 		return err
 	}
-	_ = c.dbf.Lock(c.Owner, SharedFirst, SharedFirst+SharedSize-1, false)
+	_ = c.D.lock(c.dbf, c.Owner, SharedFirst, SharedFirst+SharedSize-1, false)
 	_ = c.dbf.Unlock(c.Owner, PendingByte, ReservedByte)
 	if err := c.D.step("unlock: all"); err != nil {
 		return err
